@@ -730,8 +730,8 @@ func HeredocEligible(n *Node) bool {
 }
 
 // flushInfo decides whether a flush heredoc is in the specified zone: every
-// line starts with literal text, no line is blank, and some line starts with a
-// non-space character.
+// line starts with literal text or a template sequence, no line is blank, and
+// some line starts with a non-space character or a sequence.
 func flushOK(n *Node) bool {
 	// (whether strip markers are applied before or after the indentation
 	// analysis is not specified: templates with strip markers are not laid out
@@ -748,7 +748,10 @@ func flushOK(n *Node) bool {
 	for _, f := range flat {
 		if f == "\x00" {
 			if atLineStart {
-				return false
+				// a line that starts with an interpolation or directive has no
+				// leading spaces: it fixes the common indentation at zero
+				sawZero = true
+				atLineStart = false
 			}
 			lineHasSeq = true
 			continue
